@@ -37,7 +37,7 @@ K3_NOTE = ("K3: the verified text is code emitted by the real compiler for schem
 K3_ASSUME = COMMON_ASSUMPTIONS + ["A-COMP", "A-PURE", "A-MARKER", "HoleC for child code",
                                   "K2 contracts of __quote/__convert (proved under C02)"]
 FRESH = U('pyvc.fresh', 'unit', 'FRESH', needs_k3=True)
-S_MORE = [K("k3::S-Switch")]
+S_MORE = [K("k3::S-Switch"), K("k3::S-Case-Condition")]
 S_COMMENT = [K("k3::S-Comment-noninterp"), K("k3::S-Comment-drop"), K("k3::S-Comment-interp")]
 TAL_BASIC = [K("k3::S-Define"), K("k3::S-Define-clauses"), K("k3::S-Condition"), K("k3::S-Content"), K("k3::S-OmitTag"),
              K("k3::S-OmitTag-empty"), K("k3::S-OmitTag-selfclosing"),
